@@ -216,7 +216,7 @@ func (s *Scanner) scanComment() string {
 		goto exit
 	}
 	// # - style comment, as default
-	s.next()
+	// (the '#' is a single byte: there is no second marker byte to skip)
 	for s.ch != '\n' && s.ch >= 0 {
 		if s.ch == '\r' {
 			numCR++
